@@ -14,6 +14,16 @@
     stored (permuted) CSR rows; leaf from the real `sparse_tree_search_closure`; the query is handed to
     `query()` as sorted CSR / unsorted CSR / CSR with a stored zero / ndarray and the closure gets what
     `query()`'s sparse branch makes of it (`check_array`, `csr_matrix`, `sorted_indices`).
+(a'') multi-row batches and `parallel_batch_queries=True`, both closures.  SERIAL mode, 2..6 rows: row i's leaf and
+    draws are taken from the generator state as it stands when row i starts (ONE copy of `search_rng_state` carried
+    through the rows: the real `_tree_search` and the real `tau_rand_int` advance it exactly as far as the code does; a
+    zero-norm row under cosine / dot is `continue`d and draws nothing); every row's raw heap and sorted row, the visited
+    table after the LAST row (the only one observable; the call is given a table full of ones) and the public answer
+    are compared with the model of that row, the caller's state array must be unchanged.  PARALLEL mode (indexes built
+    with `parallel_batch_queries=True`), 1..6 rows: row i is compared with the model run on the leaf / draws obtained
+    from `search_rng_state + i` and an empty visited table; the caller's table (handed over full of ones) and state
+    must be untouched; the batch must equal, bit for bit, its rows submitted one by one with the states `+ i`, and the
+    same call repeated under `numba.set_num_threads(1 / 2 / 4)`.
 (b) API level: the property predicate on the real `query` output for dense / CSR / bit-packed
     indexes x tree_init x compressed x parallel_batch_queries, k > n_neighbors, k > n, zero-norm
     queries under cosine / dot, data points as queries, epsilon in {0, 0.1, 0.5}; distances are
@@ -24,8 +34,10 @@ sys.path.insert(0, os.path.dirname(os.path.dirname(os.path.abspath(__file__))))
 from harness.common import *
 setup_numba_cache()
 import numpy as np, scipy.sparse as sp
+import numba
 warnings.filterwarnings("ignore")
 from pynndescent import NNDescent, utils
+from pynndescent import distances as pynnd_dist
 
 EPSILONS = [0.0, 0.1, 0.5]
 RTOL, ATOL = 1e-5, 1e-6
@@ -228,22 +240,29 @@ def k_choices(n, nn):
     return ks
 
 
-def kernel_level(res, rng, plans, n_queries, combos_per_query):
-    """plans: list of (metric, tree_init, n, dim, n_neighbors, style)"""
+def kernel_level(res, rng, plans, n_queries, combos_per_query, brng=None, n_batches=0, par=False):
+    """plans: list of (metric, tree_init, n, dim, n_neighbors, style).  Single-row batches (n_queries x combos_per_query,
+    serial indexes only), then `n_batches` multi-row batches drawn from the separate stream `brng` on the same index.
+    par: the indexes are built with parallel_batch_queries=True (pass n_queries=0 and rng=brng: batches only)."""
     for (metric, tree_init, n, dim, nn, style) in plans:
-        pending = []      # (line, context) for the driver, one driver process per index
+        pending, t_plan = [], time.time()      # (line, context) for the driver, one driver process per index
         X = gen_int_data(rng, n, dim, style)
         seed = int(rng.integers(1 << 30))
         cfg = {"metric": metric, "tree_init": tree_init, "n": n, "dim": dim, "n_neighbors": nn, "style": style,
                "random_state": seed, "data": X.tolist() if n <= 40 else "gen_int_data(default_rng(seed+202), ...) in plan order"}
+        if rng is brng and n > 40:
+            cfg["data"] = "gen_int_data(default_rng(seed+20220202), ...) in plan order (the stream of the batch cases)"
+        if par:
+            cfg["parallel_batch_queries"] = True
         try:
             idx = NNDescent(X, metric=metric, n_neighbors=nn, random_state=seed, tree_init=tree_init,
-                            parallel_batch_queries=False)
+                            parallel_batch_queries=par)
             idx.prepare()
         except Exception as e:  # noqa
             res.violation("query:raises", "%s: %s" % (type(e).__name__, str(e)[:200]), cfg)
             continue
-        res.count("index_%s_tree%d" % (metric, int(tree_init)))
+        res.count("index_%s_tree%d%s" % (metric, int(tree_init), "_parallel" if par else ""))
+        t_built = time.time() - t_plan
         g = idx._search_graph
         indptr, indices = np.asarray(g.indptr), np.asarray(g.indices)
         vo = np.asarray(idx._vertex_order)
@@ -284,7 +303,12 @@ def kernel_level(res, rng, plans, n_queries, combos_per_query):
                            n=n, k=k, qkind=qkind, leaf=len(leaf), want=want, consumed=consumed, eps=eps, nn=nn,
                            dq=dq, hi=hi, hd=hd, style=style)
                 pending.append((line, ctx))
+        if n_batches:
+            dense_batches(res, brng, idx, X, cfg, style, n_batches, par, pending)
         judge_pending(res, pending)
+        if par or metric in ("cosine", "dot"):
+            res.notes.append("dense kernel %s tree_init=%s parallel=%s n=%d %s: build+prepare %.1f s, cases %.1f s" % (
+                metric, tree_init, par, n, style, t_built, time.time() - t_plan - t_built))
 
 
 # ----------------------------------------------------------------------------------------------
@@ -371,9 +395,10 @@ def sparse_query_forms(q, form):
     return form, Q, P
 
 
-def sparse_kernel_level(res, rng, plans, n_queries, combos_per_query):
+def sparse_kernel_level(res, rng, plans, n_queries, combos_per_query, brng=None, n_batches=0, par=False):
     """plans: list of (metric, tree_init, n, dim, n_neighbors, style).  Same comparison as `kernel_level`, on the
-    closure of `_init_sparse_search_function`; findings are named `sparse_search_closure_bit_exact`, counters `s_…`."""
+    closure of `_init_sparse_search_function`; findings are named `sparse_search_closure_bit_exact`, counters `s_…`
+    (multi-row batches: `sparse_search_closure_batch_bit_exact` / `…_parallel_bit_exact`, counters `sb_…` / `sp_…`)."""
     for (metric, tree_init, n, dim, nn, style) in plans:
         pending, t_plan = [], time.time()
         M = gen_sparse_int_data(rng, n, dim, style, distinct=tree_init)
@@ -382,14 +407,18 @@ def sparse_kernel_level(res, rng, plans, n_queries, combos_per_query):
         cfg = {"sparse": True, "metric": metric, "tree_init": tree_init, "n": n, "dim": dim, "n_neighbors": nn, "style": style,
                "random_state": seed,
                "data": M.tolist() if n <= 40 else "csr_matrix(gen_sparse_int_data(default_rng(seed+202202), ...)) in plan order"}
+        if rng is brng and n > 40:
+            cfg["data"] = "csr_matrix(gen_sparse_int_data(default_rng(seed+2022020202), ...)) in plan order (the stream of the batch cases)"
+        if par:
+            cfg["parallel_batch_queries"] = True
         try:
             idx = NNDescent(X, metric=metric, n_neighbors=nn, random_state=seed, tree_init=tree_init,
-                            parallel_batch_queries=False)
+                            parallel_batch_queries=par)
             idx.prepare()
         except Exception as e:  # noqa
             res.violation("query:raises", "%s: %s" % (type(e).__name__, str(e)[:200]), cfg)
             continue
-        res.count("s_index_%s_tree%d" % (metric, int(tree_init)))
+        res.count("s_index_%s_tree%d%s" % (metric, int(tree_init), "_parallel" if par else ""))
         t_built = time.time() - t_plan
         g = idx._search_graph
         indptr, indices = np.asarray(g.indptr), np.asarray(g.indices)
@@ -451,10 +480,354 @@ def sparse_kernel_level(res, rng, plans, n_queries, combos_per_query):
                            n=n, k=k, qkind=qkind, leaf=len(leaf), want=want, consumed=consumed, eps=eps, nn=nn,
                            dq=dq, hi=hi, hd=hd, style=style, name="sparse_search_closure_bit_exact", pfx="s_", form=form)
                 pending.append((line, ctx))
+        if n_batches:
+            sparse_batches(res, brng, idx, M, cfg, style, n_batches, par, pending)
         t_real = time.time() - t_plan
         judge_pending(res, pending)
-        res.notes.append("sparse kernel %s tree_init=%s n=%d %s: build+prepare %.1f s, real calls %.1f s, model %.1f s" % (
-            metric, tree_init, n, style, t_built, t_real - t_built, time.time() - t_plan - t_real))
+        res.notes.append("sparse kernel %s tree_init=%s%s n=%d %s: build+prepare %.1f s, real calls %.1f s, model %.1f s" % (
+            metric, tree_init, " parallel" if par else "", n, style, t_built, t_real - t_built, time.time() - t_plan - t_real))
+
+
+# ----------------------------------------------------------------------------------------------
+# (a'') multi-row batches: serial mode (the generator state is carried from row to row) and
+#       `parallel_batch_queries=True` (row i: state `rng_state + i`, private visited table)
+
+THREAD_COUNTS = (1, 2, 4)
+DIRTY = 0xFF        # what the visited table handed to the closure is filled with before the call (serial: always; parallel:
+                    # every other batch, the others get a cleared table)
+
+
+def closure_row(idx, row):
+    """`current_query` for the row (None: the dense closure `continue`s — zero norm under alternative_cosine /
+    alternative_dot).  The sparse closure compares its SPARSE kernel with the dense ones: it never normalises."""
+    if isinstance(row, tuple) or not (idx._distance_func is pynnd_dist.alternative_cosine
+                                      or idx._distance_func is pynnd_dist.alternative_dot):
+        return row
+    norm = np.sqrt((row ** 2).sum())                    # float32 throughout, as in the closure
+    return np.ascontiguousarray(row / norm, dtype=np.float32) if norm > 0.0 else None
+
+
+def draw_from(st, n):
+    v = np.int32(utils.tau_rand_int(st))                # advances `st` in place
+    with np.errstate(over="ignore"):
+        return int(np.abs(v) % n)
+
+
+def batch_inputs(idx, rows, k, parallel):
+    """What `search_closure` sees for every row of a batch, from the real objects, in the order the loop uses them.
+    serial: ONE copy of `search_rng_state` (`internal_rng_state`) is advanced by the real `_tree_search` and the real
+    `tau_rand_int` exactly as far as row i advances it, row i+1 starts from there; parallel: row i starts from the fresh
+    array `internal_rng_state + i`.  A `continue`d row touches nothing.  The 3 surplus draws the model must not
+    consume are taken from a throw-away copy."""
+    n = idx._raw_data.shape[0]
+    base = np.copy(idx.search_rng_state)                # `internal_rng_state = np.copy(rng_state)`
+    st = base                                           # serial: `query_rng_state = internal_rng_state` (the same array)
+    out = []
+    for i, row in enumerate(rows):
+        if parallel:
+            st = base + i                               # `query_rng_state = internal_rng_state + i`
+        start = st.copy()
+        cur = closure_row(idx, row)
+        if cur is None:
+            out.append(dict(skipped=True, cur=None, leaf=[], draws=[], consumed=False, want=0, start=start))
+            continue
+        b = idx._tree_search(*(cur if isinstance(cur, tuple) else (cur,)), st)
+        consumed = not np.array_equal(start, st)
+        if idx.tree_init:
+            leaf = [int(v) for v in idx._search_forest[0].indices[int(b[0]):int(b[1])]]
+        else:
+            leaf = []
+        want = max(min(k, idx.n_neighbors) - len(leaf), 0)
+        draws = [draw_from(st, n) for _ in range(want)]
+        peek = st.copy()
+        draws += [draw_from(peek, n) for _ in range(3)]
+        out.append(dict(skipped=False, cur=cur, leaf=leaf, draws=draws, consumed=consumed, want=want, start=start))
+    return out
+
+
+def same_result(r, HI, HD):
+    return (r[0].shape == HI.shape and np.array_equal(r[0], HI)
+            and np.array_equal(np.ascontiguousarray(r[1]).view(np.uint32), HD.view(np.uint32)))
+
+
+def heap_txt(hd, hi):
+    return bits_row(hd) + " ; " + ints_row(hi)
+
+
+def guarded(res, name, case, stage, f):
+    """a direct call of the real closure; the unmodified closure never raises on these inputs (a changed one may: e.g. a
+    table that is not cleared leaves the seed set empty and the first heappop raises) — recorded, the run goes on"""
+    try:
+        return f()
+    except Exception as e:  # noqa
+        res.corr_fail(name, {**case, "stage": stage}, "the closure returns", "raised %s: %s" % (type(e).__name__, str(e)[:200]))
+        return None
+
+
+def one_batch(res, idx, env, rows, qlog, qkinds, call, public, k, eps, parallel, extra, pending, fill=DIRTY, batch_no=0):
+    """One batch on the real closure + one model command per row.
+    rows[i]: what the closure gets as row i (dense float32 row / (indices, data) of the CSR row); qlog[i]: the logical
+    query row (case, predicate); call(lo, hi, visited, state): the real closure on rows lo..hi-1 of the batch;
+    public(): `idx.query` on the caller's form of the whole batch."""
+    n, nn, name, pfx = env["n"], env["nn"], env["name"], env["pfx"]
+    m = len(rows)
+    case = {"index": env["cfg"], "mode": "parallel" if parallel else "serial", "batch": [q.tolist() for q in qlog],
+            "k": k, "epsilon": eps, "visited_table_filled_with": fill, **extra}
+    ins = batch_inputs(idx, rows, k, parallel)
+    st0 = idx.search_rng_state.copy()
+    table = np.full_like(idx._visited, fill)
+    r = guarded(res, name, case, "call", lambda: call(0, m, table, idx.search_rng_state))
+    res.count(pfx + "batches"); res.count(pfx + "batch_of_%d" % m)
+    if r is None:
+        return
+    HI, HD = r[0].copy(), np.ascontiguousarray(r[1]).copy()
+    if HI.shape != (m, k) or HD.shape != (m, k):
+        res.corr_fail(name, {**case, "stage": "shape"}, "(%d, %d)" % (m, k), "%r / %r" % (HI.shape, HD.shape))
+        return
+    if not np.array_equal(st0, idx.search_rng_state):       # the draws are taken from a copy
+        res.corr_fail(name, {**case, "stage": "rng state"}, "caller's state unchanged " + ints_row(st0),
+                      ints_row(idx.search_rng_state))
+    vis_last = None
+    if parallel:
+        if not (table == fill).all():                       # `visited_nodes = np.zeros_like(visited)`: only its shape is used
+            res.corr_fail(name, {**case, "stage": "caller's visited table"}, "untouched (every row has a private table)",
+                          "bytes changed at %r" % (np.flatnonzero(table != fill).tolist()[:20],))
+        t_now = numba.get_num_threads()
+        avail = [t for t in THREAD_COUNTS if t <= numba.config.NUMBA_NUM_THREADS]
+        res.count(pfx + "thread_counts_unavailable", len(THREAD_COUNTS) - len(avail))
+        try:
+            # the batch = its rows one by one with the states `+ i` (a one-row prange: the thread count cannot matter; one
+            # thread keeps the launch cheap — on a busy machine a 16-thread OpenMP launch costs ~0.1 s)
+            numba.set_num_threads(1)
+            for i in range(m):
+                r1 = guarded(res, env["name_rows"], {**case, "row": i}, "call",
+                             lambda: call(i, i + 1, np.full_like(idx._visited, fill), idx.search_rng_state + i))
+                if r1 is not None and not same_result(r1, HI[i:i + 1], HD[i:i + 1]):
+                    res.corr_fail(env["name_rows"], {**case, "row": i},
+                                  "row alone, rng_state + %d: %s" % (i, heap_txt(r1[1][0], r1[0][0])),
+                                  "row %d of the batch: %s" % (i, heap_txt(HD[i], HI[i])))
+                res.count(pfx + "rows_resubmitted_alone")
+            for t in avail:                                 # the first call ran with the default thread count `t_now`
+                numba.set_num_threads(t)
+                rt = guarded(res, env["name_threads"], {**case, "threads": t}, "call",
+                             lambda: call(0, m, np.full_like(idx._visited, fill), idx.search_rng_state))
+                res.count(pfx + "repeats_with_%d_threads" % t)
+                if rt is not None and not same_result(rt, HI, HD):
+                    bad = [i for i in range(m) if not same_result((rt[0][i:i + 1], rt[1][i:i + 1]), HI[i:i + 1], HD[i:i + 1])]
+                    res.corr_fail(env["name_threads"], {**case, "threads": t, "first_call_threads": t_now, "rows": bad},
+                                  "first call: " + " / ".join(heap_txt(HD[i], HI[i]) for i in bad),
+                                  "%d threads: " % t + " / ".join(heap_txt(rt[1][i], rt[0][i]) for i in bad))
+        finally:
+            numba.set_num_threads(t_now)
+    else:
+        # the whole table, padding bits included: what the last row left behind (each row starts with `visited_nodes[:] = 0`)
+        vis_last = np.flatnonzero(np.unpackbits(table, bitorder="little")).tolist()
+    # the parallel deheap_sort and the public query(): under the default thread count / 1 / 2 / 4 in turn
+    t_now = numba.get_num_threads()
+    opts = [t_now] + [t for t in THREAD_COUNTS if t <= numba.config.NUMBA_NUM_THREADS]
+    t_pub = opts[batch_no % len(opts)] if parallel else t_now
+    if parallel:
+        case["query_threads"] = t_pub
+        res.count(pfx + "query_with_%s_threads" % ("default" if batch_no % len(opts) == 0 else str(t_pub)))
+    try:
+        numba.set_num_threads(t_pub)
+        si, sd = idx._deheap_function(r[0].copy(), r[1].copy())
+        try:
+            pub_i, pub_d = public()
+        except Exception as e:  # noqa
+            res.violation("query:raises", "query: %s: %s" % (type(e).__name__, str(e)[:200]), case)
+            return
+    finally:
+        numba.set_num_threads(t_now)
+    if pub_i.shape != (m, k) or pub_d.shape != (m, k):
+        res.violation("query:shape", "answer has shape %r, expected %r" % (pub_i.shape, (m, k)), case)
+        return
+    moved = False                                           # serial: has an earlier row of this batch advanced the state?
+    for i in range(m):
+        a = ins[i]
+        uses = a["consumed"] or a["want"] > 0
+        res.count(pfx + "rows_starting_from_an_advanced_state", int(moved))
+        res.count(pfx + "rows_drawing_from_an_advanced_state", int(moved and uses))
+        res.count(pfx + "rows_with_state_plus_i", int(parallel and i > 0))
+        res.count(pfx + "rows_drawing_from_state_plus_i", int(parallel and i > 0 and uses))
+        res.count(pfx + "skipped_rows", int(a["skipped"]))
+        moved = moved or (uses and not parallel)
+        if a["skipped"]:
+            # the model's `skippedRow` (make_heap row, deheap_sort), obtained from the search command itself: no leaf and
+            # n_neighbors = 0 -> init adds nothing, the first heappop meets the empty seed set (flag 0), state untouched
+            dq = np.zeros(n, dtype=np.float32)
+            line = "search %d %d 0 | %s | %s | %s | %s | %d" % (n, k, env["graph_part"], bits_row(dq), "", "",
+                                                                f32bits(np.float32(1.0 + eps)))
+        else:
+            dq = env["table"](a["cur"])
+            hyp = hypotheses_ok(n, env["indptr"], env["indices"], a["leaf"], a["draws"])
+            if hyp:
+                res.corr_fail("search_theorem_hypotheses", {**case, "row": i}, "hypotheses of C02.search_sound", hyp)
+            line = "search %d %d %d | %s | %s | %s | %s | %d" % (
+                n, k, nn, env["graph_part"], bits_row(dq), ints_row(a["leaf"]), ints_row(a["draws"]),
+                f32bits(np.float32(1.0 + eps)))
+        ctx = dict(case={**case, "row": i, "query": qlog[i].tolist(), "state_at_row_start": a["start"].tolist()},
+                   heap=heap_txt(HD[i], HI[i]), srt=heap_txt(sd[i], si[i]),
+                   vis=(vis_last if (not parallel and i == m - 1) else None), pub_i=pub_i[i], pub_d=pub_d[i], vo=env["vo"],
+                   corr=env["corr"], far=env["far"], D64=env["D64"], metric=env["metric"], n=n, k=k, qkind=qkinds[i],
+                   leaf=len(a["leaf"]), want=a["want"], consumed=a["consumed"], eps=eps, nn=nn, dq=dq, hi=HI[i], hd=HD[i],
+                   style=env["style"], name=name, pfx=pfx, skipped=a["skipped"],
+                   canon=("parallel" if parallel else "serial", m, i, tuple(int(v) for v in a["start"])))
+        if "query_form" in extra:
+            ctx["form"] = extra["query_form"]
+        pending.append((line, ctx))
+
+
+def pick_k_eps(brng, ks, style):
+    k = int(ks[int(brng.integers(len(ks)))])
+    eps = float(EPSILONS[int(brng.integers(len(EPSILONS)))])
+    if style == "line" and brng.random() < 0.7:
+        eps = 0.1
+    return k, eps
+
+
+def pick_batch(brng, pool, sizes, b):
+    """m rows out of the pool (m cycles through `sizes`); now and then the same query twice in one batch (serial: the
+    second occurrence starts from another generator state; parallel: from `+ i`)"""
+    m = sizes[b % len(sizes)]
+    sel = [int(v) for v in brng.choice(len(pool), size=m, replace=len(pool) < m)]
+    if m >= 2 and brng.random() < 0.3:
+        sel[int(brng.integers(1, m))] = sel[0]
+    return [pool[j] for j in sel]
+
+
+POW2_NORM = [(1,), (2,), (4,), (8,), (1, 1, 1, 1), (2, 2, 2, 2), (4, 4, 4, 4), (3, 2, 1, 1, 1), (6, 4, 2, 2, 2), (7, 3, 2, 1, 1),
+             (5, 5, 3, 2, 1), (6, 5, 1, 1, 1)]        # sums of squares 1, 4, 16, 64
+
+
+def gen_angular_queries(rng, X, m):
+    """queries for the normalising dense closures (cosine): zero rows (the `continue` branch), vectors whose norm is a power
+    of two (so that `query_points[i] / norm` is exact however the fastmath closure evaluates it: the normalised query handed to
+    `_tree_search` / `_distance_func` here is then certainly the closure's), data points with such a norm"""
+    n, dim = X.shape
+    pats = [p for p in POW2_NORM if len(p) <= dim]
+    sq = (X.astype(np.float64) ** 2).sum(axis=1)
+    good = [i for i in range(n) if sq[i] in (1.0, 4.0, 16.0, 64.0, 256.0)]
+    out = []
+    for _ in range(m):
+        u = rng.random()
+        if u < 0.3:
+            out.append(("zero", np.zeros(dim, dtype=np.float32)))
+        elif u < 0.45 and good:
+            out.append(("point", X[good[int(rng.integers(len(good)))]].copy()))
+        else:
+            q = np.zeros(dim)
+            p = pats[int(rng.integers(len(pats)))]
+            q[:len(p)] = p
+            q = rng.permutation(q) * rng.choice([-1.0, 1.0], size=dim)
+            out.append(("pow2norm", np.ascontiguousarray(q, dtype=np.float32)))
+    return out
+
+
+def dense_batches(res, brng, idx, X, cfg, style, n_batches, parallel, pending):
+    n, nn, metric = X.shape[0], idx.n_neighbors, cfg["metric"]
+    g = idx._search_graph
+    indptr, indices = np.asarray(g.indptr), np.asarray(g.indices)
+    raw, dist = idx._raw_data, idx._distance_func
+    par = "parallel_" if parallel else "batch_"
+    env = dict(n=n, nn=nn, cfg=cfg, indptr=indptr, indices=indices, graph_part="%s | %s" % (ints_row(indptr), ints_row(indices)),
+               vo=np.asarray(idx._vertex_order), corr=idx._distance_correction, far=far_end(idx), D64=X.astype(np.float64),
+               metric=metric, style=style, name="search_closure_%sbit_exact" % par, pfx="ap_" if parallel else "ab_",
+               name_rows="parallel_batch_equals_rows_one_by_one", name_threads="parallel_batch_thread_count_invariant",
+               table=lambda cur: np.array([np.float32(dist(raw[v], cur)) for v in range(n)], dtype=np.float32))
+    ks = k_choices(n, nn)
+    if style == "line":
+        ks = sorted({3, nn, 2 * nn, 2 * nn + 1, 2 * nn + 2, 4 * nn, 4 * nn + 1})
+    sizes = [1, 2, 3, 4, 5, 6] if parallel else [2, 3, 4, 5, 6]
+    angular = metric in ("cosine", "dot")
+    pool = gen_angular_queries(brng, X, 24) if angular else gen_queries(brng, X, 20, style)
+    for b in range(n_batches):
+        sel = pick_batch(brng, pool, sizes, b)
+        if angular and not parallel and b % 3 == 0:          # a `continue`d row last: the table must come back empty
+            sel[-1] = ("zero", np.zeros(X.shape[1], dtype=np.float32))
+        k, eps = pick_k_eps(brng, ks, style)
+        Q = np.ascontiguousarray(np.stack([q for (_, q) in sel]), dtype=np.float32)
+        one_batch(res, idx, env, [Q[i] for i in range(len(sel))], [Q[i] for i in range(len(sel))], [kd for (kd, _) in sel],
+                  lambda lo, hi, vis, st, Q=Q, k=k, eps=eps: idx._search_function(Q[lo:hi], k, eps, vis, st),
+                  lambda Q=Q, k=k, eps=eps: idx.query(Q, k=k, epsilon=eps), k, eps, parallel, {}, pending,
+                  fill=DIRTY if (not parallel or (b // len(sizes) + b) % 2 == 0) else 0, batch_no=b)
+    if len(idx._search_function.signatures) != 1:           # every call above must have hit the one compiled specialisation
+        res.notes.append("dense closure compiled %d specialisations" % len(idx._search_function.signatures))
+
+
+def as_query_passes(Q):
+    """what the sparse branch of `query` hands to the closure for the caller's Q"""
+    from sklearn.utils import check_array
+    P = check_array(Q.copy() if sp.issparse(Q) else Q, accept_sparse="csr", dtype=np.float32)
+    if not sp.isspmatrix_csr(P):
+        P = sp.csr_matrix(P, dtype=np.float32)
+    if not P.has_sorted_indices:
+        P = P.sorted_indices()
+    return P
+
+
+def sparse_batch_forms(qs, form):
+    """the caller's multi-row query matrix in the given form, built from raw indptr / indices / data"""
+    m, dim = len(qs), qs[0].shape[0]
+    if form == "ndarray":
+        return np.ascontiguousarray(np.stack(qs), dtype=np.float32)
+    ind, dat, ptr = [], [], [0]
+    for q in qs:
+        nz = np.flatnonzero(q).astype(np.int32)
+        if form == "unsorted":
+            nz = nz[::-1]
+        elif form == "stored_zero" and len(nz) < dim:
+            nz = np.sort(np.append(nz, np.int32(np.flatnonzero(q == 0)[0]))).astype(np.int32)
+        ind.append(nz); dat.append(q[nz].astype(np.float32)); ptr.append(ptr[-1] + len(nz))
+    return sp.csr_matrix((np.concatenate(dat), np.concatenate(ind).astype(np.int32), np.array(ptr, dtype=np.int32)), shape=(m, dim))
+
+
+def sparse_batches(res, brng, idx, M, cfg, style, n_batches, parallel, pending):
+    n, dim = M.shape
+    nn, metric = idx.n_neighbors, cfg["metric"]
+    g = idx._search_graph
+    indptr, indices = np.asarray(g.indptr), np.asarray(g.indices)
+    raw, dist = idx._raw_data, idx._distance_func
+    rp, ri, rd = np.asarray(raw.indptr), np.asarray(raw.indices), np.asarray(raw.data)
+    par = "parallel_" if parallel else "batch_"
+    env = dict(n=n, nn=nn, cfg=cfg, indptr=indptr, indices=indices, graph_part="%s | %s" % (ints_row(indptr), ints_row(indices)),
+               vo=np.asarray(idx._vertex_order), corr=idx._distance_correction, far=far_end(idx), D64=M.astype(np.float64),
+               metric=metric, style=style, name="sparse_search_closure_%sbit_exact" % par, pfx="sp_" if parallel else "sb_",
+               name_rows="sparse_parallel_batch_equals_rows_one_by_one", name_threads="sparse_parallel_batch_thread_count_invariant",
+               table=lambda cur: np.array([np.float32(dist(ri[rp[v]:rp[v + 1]], rd[rp[v]:rp[v + 1]], cur[0], cur[1]))
+                                           for v in range(n)], dtype=np.float32))
+    ks = k_choices(n, nn)
+    if style == "line":
+        ks = sorted({3, nn, 2 * nn, 2 * nn + 1, 2 * nn + 2, 4 * nn, 4 * nn + 1})
+    sizes = [1, 2, 3, 4, 5, 6] if parallel else [2, 3, 4, 5, 6]
+    pool = []
+    for (qkind, q) in gen_queries(brng, M, 20, style):
+        if qkind != "point":
+            q = (q * (brng.random(dim) < 0.7)).astype(np.float32)
+        if not q.any():                                     # an empty operand is read out of bounds: not generated
+            q[int(brng.integers(dim))] = np.float32(1.0)
+        pool.append((qkind, q))
+    for b in range(n_batches):
+        sel = pick_batch(brng, pool, sizes, b)
+        k, eps = pick_k_eps(brng, ks, style)
+        form = QUERY_FORMS[b % len(QUERY_FORMS)]
+        qs = [q for (_, q) in sel]
+        Q = sparse_batch_forms(qs, form)
+        P = as_query_passes(Q)
+        qi, qp, qd = P.indices, P.indptr, P.data
+        if qi.dtype != np.int32 or qp.dtype != np.int32 or qd.dtype != np.float32:
+            res.notes.append("sparse batch: query() would pass %s/%s/%s arrays" % (qi.dtype, qp.dtype, qd.dtype))
+
+        def call(lo, hi, vis, st, qi=qi, qp=qp, qd=qd, k=k, eps=eps):
+            if (lo, hi) == (0, len(qp) - 1):
+                return idx._search_function(qi, qp, qd, k, eps, vis, st)
+            a, z = int(qp[lo]), int(qp[hi])
+            return idx._search_function(qi[a:z], (qp[lo:hi + 1] - qp[lo]).astype(qp.dtype), qd[a:z], k, eps, vis, st)
+        one_batch(res, idx, env, [(qi[qp[i]:qp[i + 1]], qd[qp[i]:qp[i + 1]]) for i in range(len(sel))], qs, [kd for (kd, _) in sel],
+                  call, lambda Q=Q, k=k, eps=eps: idx.query(Q, k=k, epsilon=eps), k, eps, parallel, {"query_form": form}, pending,
+                  fill=DIRTY if (not parallel or (b // len(sizes) + b) % 2 == 0) else 0, batch_no=b)
+    if len(idx._search_function.signatures) != 1:
+        res.notes.append("sparse closure compiled %d specialisations" % len(idx._search_function.signatures))
 
 
 def judge_pending(res, pending):
@@ -482,7 +855,9 @@ def judge_kernel_case(res, c):
     n, k = c["n"], c["k"]
     name, a_ = c.get("name", "search_closure_bit_exact"), c.get("pfx", "a_")      # dense: a_…, sparse closure: s_…
     filled = int((c["pub_i"] >= 0).sum())
-    nvis = len(c["vis"])
+    # batches: only the table the LAST row of a serial call leaves behind is observable (c["vis"] None otherwise); the
+    # counters / non-triviality of the other rows use the model's table, for which the raw-heap comparison vouches
+    nvis = len(c["vis"]) if c.get("vis") is not None else (len(parts[3].split()) if len(parts) == 4 else 0)
     ties = len(set(c["pub_d"].tolist())) < k
     res.count(a_ + "eps_%g" % c["eps"]); res.count(a_ + "q_" + c["qkind"])
     res.count(a_ + "unfilled_rows", int(filled < k)); res.count(a_ + "k_gt_nn", int(k > c["nn"])); res.count(a_ + "k_gt_n", int(k > n))
@@ -491,7 +866,7 @@ def judge_kernel_case(res, c):
     res.count(a_ + "visited_total", nvis)
     expanded = nvis > c["leaf"] + c["want"]
     nontrivial = expanded and nvis > k
-    res.case((a_, case["index"]["random_state"], case["query"], k, c["eps"]) if a_ != "a_" else
+    res.case((a_, case["index"]["random_state"], case["query"], k, c["eps"]) + c.get("canon", ()) if a_ != "a_" else
              (case["index"]["random_state"], case["query"], k, c["eps"]), nontrivial,
              sample={"metric": c["metric"], "n": n, "k": k, "epsilon": c["eps"], "query": case["query"],
                      "answer": c["pub_i"].tolist(), "visited": nvis})
@@ -506,19 +881,19 @@ def judge_kernel_case(res, c):
         res.count(a_ + "query_form_" + c["form"])
     if not table_ok:
         res.count(a_ + "inlined_distance_differs_from_table")
-        if c["style"] != "real":
+        if c["style"] != "real" and c["metric"] not in ("cosine", "dot"):     # log2 / sqrt of the angular surrogates: as 'real'
             res.corr_fail(name, {**case, "stage": "distance table"},
                           "dist(data[v], q) from _distance_func", "the closure holds a different float32 for the same pair")
     elif len(parts) != 4:
         res.corr_fail(name, case, " | ".join(parts), "driver rejected the command"); ok = False
     else:
         flag, mheap, msrt = parts[0], parts[1], parts[2]
-        if flag != "1":
+        if flag != ("0" if c.get("skipped") else "1"):      # skipped row: the model is asked for the untouched row (flag 0)
             res.corr_fail(name, case, "flag " + flag, "real closure returned: fuel n+1 did not suffice / empty seed set")
             ok = False
         if mheap != c["heap"]:
             res.corr_fail(name, {**case, "stage": "raw heap"}, mheap, c["heap"]); ok = False
-        elif [int(v) for v in parts[3].split()] != c["vis"]:
+        elif c.get("vis") is not None and [int(v) for v in parts[3].split()] != c["vis"]:
             res.corr_fail(name, {**case, "stage": "visited table"}, parts[3], ints_row(c["vis"])); ok = False
         elif msrt != c["srt"]:
             res.corr_fail(name, {**case, "stage": "deheap_sort"}, msrt, c["srt"]); ok = False
@@ -720,6 +1095,8 @@ def bit_table(res, rng):
 def run(res, tier, seed, search):
     rng = np.random.default_rng(seed + 202)
     rng_s = np.random.default_rng(seed + 202202)    # the sparse kernel-level cases: own stream, the other parts keep theirs
+    rng_b = np.random.default_rng(seed + 20220202)  # multi-row / parallel batches: own streams again (the single-row cases,
+    rng_sb = np.random.default_rng(seed + 2022020202)   # their indexes and the API level are what they were before)
     res.rule = ("(a) real dense indexes over integer-valued data (euclidean = squared surrogate + sqrt, manhattan; tree_init T/F; "
                 "n 20..300, dim 2..6; tie-heavy 'tiny' / grid / half-integer / integer-line (candidates exactly on the rounded bound) streams, plus a gaussian 'real' stream guarded by a check that the closure's own distances equal the table) x queries {data point, +-1 neighbour, half-integer "
                 "offset, random, far} x k in {1,2,3,nn-1,nn,nn+3,2nn+1,n,n+2} x eps in {0,.1,.5}: raw heap, visited table, sorted row and "
@@ -728,7 +1105,18 @@ def run(res, tier, seed, search):
                 "sparse_squared_euclidean + sqrt, sparse_manhattan; tree_init T/F; n 20..300, dim 2..12, ~55% stored, every row non-empty, "
                 "rows distinct when tree_init; tiny / grid / half / line / real streams; query handed over as sorted CSR / unsorted CSR / "
                 "CSR with a stored zero / ndarray; on the line stream 40 % of the k are chosen so that a stored point lies exactly on "
-                "the float32 bound of the completed search; search_rng_state must be left unchanged), counters s_…; (b) real query() on dense/CSR/bit-packed x tree_init x parallel x "
+                "the float32 bound of the completed search; search_rng_state must be left unchanged), counters s_…; (a'') on the same serial "
+                "indexes (dense ab_…, sparse sb_…) batches of 2..6 rows (a query may occur twice in a batch): row i's leaf and draws "
+                "come from ONE copy of search_rng_state advanced by the real _tree_search / tau_rand_int exactly as far as the rows "
+                "before it advance it; every row's raw heap, sorted row and public answer, the visited table the LAST row leaves in "
+                "a table handed over full of ones, and the unchanged caller state are compared with the model of that row; one serial dense "
+                "cosine index (ab_…; queries: zero rows — `continue`d, no draw — and vectors with a power-of-two norm so that the "
+                "normalisation is exact; every third batch ends with a zero row); indexes built with parallel_batch_queries=True (dense "
+                "ap_…, sparse sp_…; quick: one each, tree routing alternating with the seed), batches of 1..6 rows: row i against the "
+                "model run on leaf / draws from search_rng_state + i and an empty table; caller's table (ones / zeros alternating) and "
+                "state untouched; the batch equals its rows submitted one by one with rng_state + i and the same call under "
+                "numba.set_num_threads(1 / 2 / 4), bit for bit; non-trivial (batch rows) = as in (a), the visited set of a row "
+                "whose table cannot be observed being the model's; (b) real query() on dense/CSR/bit-packed x tree_init x parallel x "
                 "compressed, rows judged by the predicate (distinct, in range, -1 last, ascending, true float64 distance in caller "
                 "numbering, zero-norm rows empty); non-trivial = at least one filled slot or a zero-norm row; distinct = hash of "
                 "(index seed, query, k, eps)")
@@ -742,15 +1130,25 @@ def run(res, tier, seed, search):
                  ("manhattan", False, 80, 4, 6, "grid"), ("manhattan", False, 20, 2, 3, "tiny"),
                  ("manhattan", False, 200, 5, 15, "half"), ("manhattan", False, 100, 4, 6, "real"),
                  ("manhattan", False, 120, 2, 10, "line")]
-        kernel_level(res, rng, plans, n_queries=20, combos_per_query=4)   # manhattan x tree_init=True: thorough tier
+        kernel_level(res, rng, plans, n_queries=20, combos_per_query=4,   # manhattan x tree_init=True: thorough tier
+                     brng=rng_b, n_batches=6)                             # + serial batches of 2..6 rows on the same indexes
         res.notes.append("kernel level: %.0f s" % (time.time() - t0)); t0 = time.time()
+        # parallel_batch_queries=True: one dense and one sparse index (each compiles another closure); tree routing alternates
+        # with the seed, one of the two always seeds by random draws alone (every row then depends on `rng_state + i`), the
+        # tree-routed one has n_neighbors = 12 >= most leaves (rows with k >= 12 top the leaf up with draws);
+        # plus one serial cosine index: zero-norm rows are `continue`d between rows that draw
+        Tp = (seed % 2 == 1)
+        kernel_level(res, rng_b, [("euclidean", Tp, 90, 3, 12 if Tp else 6, "tiny" if Tp else "grid")], 0, 0, brng=rng_b, n_batches=24, par=True)
+        kernel_level(res, rng_b, [("cosine", False, 70, 5, 6, "grid")], 0, 0, brng=rng_b, n_batches=15)
+        res.notes.append("kernel level, parallel dense closure + serial cosine batches: %.0f s" % (time.time() - t0)); t0 = time.time()
         # the cost is JIT only (first sparse index ~19 s, of which ~17 s would otherwise be paid by the first sparse API
         # configuration; second metric ~12 s; a further closure 1.5 s; the cases themselves are ~free): one index per
         # metric plus two cheap ones, tree_init alternating with the seed (the full cross is the thorough tier)
         T = (seed % 2 == 0)
         splans = [("euclidean", T, 120, 8, 6, "grid"), ("manhattan", not T, 150, 6, 8, "tiny"),
                   ("manhattan", not T, 120, 2, 10, "line"), ("manhattan", not T, 24, 4, 4, "tiny")]
-        sparse_kernel_level(res, rng_s, splans, n_queries=60, combos_per_query=5)
+        sparse_kernel_level(res, rng_s, splans, n_queries=60, combos_per_query=5, brng=rng_sb, n_batches=10)
+        sparse_kernel_level(res, rng_sb, [("euclidean", not Tp, 100, 8, 6 if Tp else 12, "grid")], 0, 0, brng=rng_sb, n_batches=24, par=True)
         res.notes.append("kernel level, sparse closure: %.0f s" % (time.time() - t0)); t0 = time.time()
         api_level(res, rng, API_BASE + [API_ROTATE[seed % len(API_ROTATE)]], sizes=[(12, 5), (90, 6)], n_queries=12)
         res.notes.append("API level: %.0f s" % (time.time() - t0))
@@ -762,7 +1160,13 @@ def run(res, tier, seed, search):
                                             (120, 2, 8, "tiny"), (200, 5, 15, "half"), (300, 6, 10, "half"), (150, 3, 30, "grid"),
                                             (100, 5, 8, "real"), (250, 6, 12, "real"), (120, 2, 10, "line"), (200, 3, 6, "line")]:
                     plans.append((metric, tree_init, n, dim, nn, style))
-        kernel_level(res, rng, plans, n_queries=30, combos_per_query=5)
+        kernel_level(res, rng, plans, n_queries=30, combos_per_query=5, brng=rng_b, n_batches=10)
+        pplans = [(metric, tree_init, n, dim, nn, style) for metric in ("euclidean", "manhattan") for tree_init in (True, False)
+                  for (n, dim, nn, style) in [(24, 2, 4, "tiny"), (90, 3, 12, "grid"), (200, 5, 15, "half")]]
+        kernel_level(res, rng_b, pplans, 0, 0, brng=rng_b, n_batches=30, par=True)
+        cplans = [("cosine", tree_init, n, dim, nn, "grid") for tree_init in (True, False) for (n, dim, nn) in [(30, 4, 4), (150, 6, 12)]]
+        kernel_level(res, rng_b, cplans, 0, 0, brng=rng_b, n_batches=20)
+        kernel_level(res, rng_b, cplans[1:3], 0, 0, brng=rng_b, n_batches=20, par=True)   # parallel cosine: skipped rows in a prange
         splans = []
         for metric in ("euclidean", "manhattan"):
             for tree_init in (True, False):
@@ -770,7 +1174,10 @@ def run(res, tier, seed, search):
                                             (150, 6, 8, "tiny"), (200, 10, 15, "half"), (300, 12, 10, "half"),
                                             (100, 8, 8, "real"), (120, 2, 10, "line"), (200, 3, 6, "line")]:
                     splans.append((metric, tree_init, n, dim, nn, style))
-        sparse_kernel_level(res, rng_s, splans, n_queries=30, combos_per_query=5)
+        sparse_kernel_level(res, rng_s, splans, n_queries=30, combos_per_query=5, brng=rng_sb, n_batches=10)
+        spplans = [(metric, tree_init, n, dim, nn, style) for metric in ("euclidean", "manhattan") for tree_init in (True, False)
+                   for (n, dim, nn, style) in [(24, 4, 4, "tiny"), (100, 8, 12, "grid"), (120, 2, 10, "line")]]
+        sparse_kernel_level(res, rng_sb, spplans, 0, 0, brng=rng_sb, n_batches=30, par=True)
         api_level(res, rng, API_BASE + API_ROTATE, sizes=[(7, 5), (12, 5), (40, 8), (90, 6), (250, 12)], n_queries=24)
 
 
